@@ -9,14 +9,24 @@
      Model/LZSpec.v   specification side: strict parser [sparse11] of the LZ11 container (three length forms).
    Not proved: the *value* of the three wrapper length bytes (the property does not constrain them; the
    correspondence compares them with the model for inputs up to 1200 bytes).
-   PARTIAL: [C09_total_partial] covers inputs shorter than 2^31 bytes - calculate_lz13_header counts in
-   Wrapping<i32> and the model represents its positions as list positions, which is only faithful below
-   2^31.  The full statement is [C09_total_full]; what is missing is a model of the wrapped position
-   arithmetic for inputs of 2 GiB and more (no panic is expected there either: every index stays in range
-   by the loop guards, but that is an argument on paper, not a theorem). *)
+   Totality ("for every input ... returns Ok or Err and never panics or aborts"): calculate_lz13_header counts
+   in Wrapping<i32>.  Model/LZ11.v represents its positions as list positions (faithful below 2^31 bytes, and
+   the model the extracted code and all other theorems use); Model/LZ13Machine.v models the same function at
+   machine level - seven wrapping i32 variables, `as usize` sign extension, checked slice indexing, the
+   reservation with Vec::reserve's own capacity check - for inputs of any length, and Model/LZCompressMachine.v
+   the main loop and get_occurrence_length (checked indexing, usize arithmetic in a profile): [compress13_mm].  [C09_machine_model] proves
+   the two equal below 2^31 bytes; [C09_total] proves that the machine-level model returns Ok for EVERY input
+   shorter than 2^62 bytes (no index out of range, no fuel exhausted, never the Err branch), and
+   [C09_total_boundary] states exactly what happens up to the largest slice Rust allows (isize::MAX bytes):
+   Ok, except that `result.reserve(12 + n + (n+7)/8)` panics with "capacity overflow" when that sum exceeds
+   isize::MAX, i.e. for n > 0.888 * 2^63 - an input that cannot exist (it would need more than 2^62 bytes of
+   address space next to the output buffer; 64-bit targets have at most 2^57).  What remains assumed: inputs
+   of 2 GiB and more cannot be run by the harness, so above 2^31 the machine-level model is tied to
+   src/lz13.rs:93-160 by reading only; an allocation FAILURE (out of memory) aborts the process and is
+   outside the model; a 64-bit target. *)
 From Coq Require Import List NArith Bool.
-From Mila Require Import Lib.Bytes Lib.Machine Model.LZCore Model.LZ11 Model.LZSpec Model.LZDecode
-  Proofs.LZCoreProofs Proofs.LZTokens Proofs.LZ11Proofs Proofs.LZDecodeProofs Proofs.LZRoundTrip.
+From Mila Require Import Lib.Bytes Lib.Machine Model.LZCore Model.LZ11 Model.LZ13Machine Model.LZCompressMachine Model.LZSpec Model.LZDecode
+  Proofs.LZCoreProofs Proofs.LZTokens Proofs.LZ11Proofs Proofs.LZDecodeProofs Proofs.LZRoundTrip Proofs.LZ13MachineProofs Proofs.LZCompressMachineProofs Proofs.LZFormat Proofs.LZRoundTripExt.
 Import ListNotations.
 Local Open Scope N_scope.
 
@@ -39,10 +49,31 @@ Theorem C09_library_round_trip : forall m x, x <> [] -> wfb x -> lenN x < 2 ^ 24
   exists c, compress13 m x = Ok c /\ forall m', lz13_decompress m' c = Ok x.
 Proof. exact compress13_round_trip. Qed.
 
-(* never Panic and never Err - the empty input included - for inputs below 2 GiB *)
-Definition C09_total_full : Prop :=
-  forall m x, lenN x < 2 ^ 63 -> (exists r, compress13 m x = Ok r) \/ (exists e, compress13 m x = Err e).
-Theorem C09_total_partial : forall m x, lenN x < 2 ^ 31 -> exists r, compress13 m x = Ok r.
+(* beyond the property's 16 MiB: one statement for every payload below 4 GiB - the empty one and those of 16 MiB
+   and more are written with the extended size form (repair of F12) - the wrapped stream is accepted by the strict
+   parser with the tokens of the greedy loop, and the library's decompressor returns the input *)
+Theorem C09_round_trip_below_4GiB : forall m x, wfb x -> lenN x < 2 ^ 32 ->
+  exists a b c s, compress13 m x = Ok (0x13 :: a :: b :: c :: s) /\
+    sparse11 s = Some (lenN x, tokens 4096 x) /\
+    forall m', lz13_decompress m' (0x13 :: a :: b :: c :: s) = Ok x.
+Proof. exact compress13_round_trip_ext. Qed.
+
+(* never Panic, never Err, never out of fuel - the empty input included - on the machine-level model
+   [compress13_mm] (header computation, reservation AND main loop with get_occurrence_length at machine level), for
+   every input shorter than 2^62 bytes; up to isize::MAX the only other outcome is Vec::reserve's capacity panic *)
+Theorem C09_total : forall m x, lenN x < 2 ^ 62 -> exists r, compress13_mm m x = Ok r.
+Proof. exact compress13_mm_ok. Qed.
+
+Theorem C09_total_boundary : forall m x, lenN x < 2 ^ 63 ->
+  (12 + lenN x + (lenN x + 7) / 8 <= ISIZE_MAX -> exists r, compress13_mm m x = Ok r) /\
+  (ISIZE_MAX < 12 + lenN x + (lenN x + 7) / 8 -> compress13_mm m x = Panic PAlloc).
+Proof. exact compress13_mm_total. Qed.
+
+(* below 2 GiB the machine-level model IS the list model of all other theorems (and of the extracted code) *)
+Theorem C09_machine_model : forall m x, lenN x < 2 ^ 31 -> compress13_mm m x = compress13 m x.
+Proof. exact compress13_mm_list. Qed.
+
+Theorem C09_total_list_model : forall m x, lenN x < 2 ^ 31 -> exists r, compress13 m x = Ok r.
 Proof. exact compress13_total. Qed.
 
 (* the empty input (finding F12, repaired): Ok in both modes, and it decompresses to the empty payload *)
@@ -53,6 +84,12 @@ Theorem C09_layout : forall m x, lenN x < 2 ^ 63 ->
   exists h, compress13 m x = Ok (header13 h (lenN x) ++ enc_body (senc V11) (tokens 4096 x)).
 Proof. exact compress13_enc. Qed.
 
+(* the same through the enum CompressionFormat::LZ13 (src/compression_format.rs:20-32) - the empty payload included *)
+Theorem C09_format_entry : forall mc md x, wfb x -> lenN x < 2 ^ 24 ->
+  cf_compress CF13 mc x = compress13 mc x /\
+  exists c, cf_compress CF13 mc x = Ok c /\ cf_decompress CF13 md c = Ok x.
+Proof. intros mc md x Hw Hn. split; [reflexivity | exact (cf_round_trip CF13 mc md x Hw Hn)]. Qed.
+
 (* non-vacuity: all three length forms in one input (runs of 10, 100 and 300 bytes) *)
 Example C09_example :
   let x := repeat 1 10 ++ repeat 2 100 ++ repeat 3 300 in
@@ -61,3 +98,9 @@ Example C09_example :
   compress13 Checked x = Ok ([0x13; 0x9A; 0x01; 0; 0x11; 0x9A; 0x01; 0; 0x24; 1; 1; 0x70; 0x01; 2; 2; 0x05; 0x10; 0x01; 3; 3; 0x80; 0x10; 0x01; 0x90; 0x01]) /\
   lz13_decompress Wrapping [0x13; 0x9A; 0x01; 0; 0x11; 0x9A; 0x01; 0; 0x24; 1; 1; 0x70; 0x01; 2; 2; 0x05; 0x10; 0x01; 3; 3; 0x80; 0x10; 0x01; 0x90; 0x01] = Ok x.
 Proof. vm_compute. repeat split; try reflexivity. discriminate. Qed.
+
+(* the machine-level model computes the same bytes on that input (and on the empty one) *)
+Example C09_example_machine :
+  let x := repeat 1 10 ++ repeat 2 100 ++ repeat 3 300 in
+  compress13_mm Checked x = compress13 Checked x /\ compress13_mm Wrapping [] = Ok [0x13; 9; 0; 0; 0x11; 0; 0; 0; 0; 0; 0; 0].
+Proof. split; vm_compute; reflexivity. Qed.
